@@ -2191,3 +2191,8 @@ V("C12-rewrite-tolerates-existing-link","C12",FRW,"""	if err = unix.Linkat(unix.
 	}""","""	if err = unix.Linkat(unix.AT_FDCWD, procPath, unix.AT_FDCWD, linkPath, unix.AT_SYMLINK_FOLLOW); err != nil && !errors.Is(err, unix.EEXIST) {
 		return fmt.Errorf("link unnamed temporary object file: %w", err)
 	}""",rule="C12.R1")
+V("C17-revert-fix-abandoned-round-keeps-current-mark","C17",WFL,"""						if !handledAddr {
+							// already marked, but not in the batch yet
+							c.flushObjs.Delete(addr)
+						}
+""","",rule="C17.R4")
